@@ -287,6 +287,11 @@ WITNESSES = [
      b"Content-Transfer-Encoding: 8bit\r\n\r\nb\xe9d and breakfast\r\n", ["text-8bit", "witness-8bit-append"]),
     (b"Subject: no newline\nFrom: x@y\n\nlast line without newline", ["no-final-newline", "LF"]),
     (b"Subject: a \"q\" \\ b\r\nFrom: \"Joe \\\"x\\\" Q\" <j@y>\r\n\r\nhi\r\n", ["hostile-header", "witness-D11"]),
+    (b"Received: from a (a [10.0.0.1])\r\n\tby b with ESMTP id 1;\r\n\tMon, 01 Jan 2024 10:00:00 +0000\r\n"
+     b"From: Ann <a@y>\r\nSender: s@y\r\nReply-To: r@y\r\nTo: t@y\r\nCc: c@y\r\nBcc: b@y\r\nSubject: every field\r\n"
+     b"Date: Mon, 01 Jan 2024 10:00:00 +0000\r\nMessage-ID: <1@y>\r\nIn-Reply-To: <0@y>\r\nReferences: <0@y>\r\n"
+     b"X-Custom-1: one\r\nX-Custom-2: two\r\nX-Custom-3: three\r\nX-Empty:\r\nMIME-Version: 1.0\r\n"
+     b"Content-Type: text/plain; charset=us-ascii\r\nContent-Language: en\r\n\r\nbody\r\n", ["many-headers"]),
     (b"From: x@y\r\n\r\n\r\n", ["blank-line-body"]),
     (b"Subject: one\r\n\r\nx", ["one-octet-body", "no-final-newline"]),
     (b"Subject: lf only\n\n\n", ["LF", "blank-line-body"]),
